@@ -26,7 +26,7 @@ ASSUMPTIONS = ["edits go through the matrix API or through attributes of a frame
 TRUSTED = ["copy.deepcopy is modelled as a structural copy that preserves sharing inside the copied matrix"]
 CORRESPONDENCE = "histories of CanMatrix operations == CanVerif.step (Model/Lookup.lean)"
 
-IDS = [(0x10, False), (0x20, False), (0x10, True), (0x18FEF100, True), (0x0CFEF102, True), (0x18EA2100, True), (0x20, True),
+IDS = [(0x10, False), (0x20, False), (0x10, True), (0x18FEF100, True), (0x0CFEF102, True), (0x18EA2100, True), (0x20, True), (0xFEF100, True),
        (0x1AFEF100, True), (0x19FEF103, True)]    # the same PF/PS on another data page (DP, EDP bits belong to the PGN)
 NAMES = ["A", "B", "C"]
 PGNS = [0xFEF1, 0xEA21, 0xEA00, 0x1234, 0x2FEF1, 0x1FEF1, 0x3FEF1]
@@ -43,6 +43,9 @@ def prelude(variant):
     if variant >= 1:
         ops.append(["loadMatrix", [["A", 0x10, False], ["D", 0x0CFEF102, True]]])
         nmats += 1
+        nobjs += 2
+        # two frames whose identifiers are made from the same PGN (ArbitrationId.from_pgn), one per matrix
+        ops += [["newFrame", "P", 0xFEF100, True], ["newFrame", "Q", 0xFEF100, True], ["addFrame", 0, nobjs], ["addFrame", 1, nobjs + 1]]
         nobjs += 2
     if variant >= 2:
         ops.append(["loadMatrix", [["B", 0x10, False]]])
@@ -264,7 +267,11 @@ class Run(object):
             self.mats.append(cm.CanMatrix())
             return {"h": len(self.mats) - 1}, None
         if k == "newFrame":
-            fr = cm.Frame(op[1], arbitration_id=cm.ArbitrationId(op[2], op[3]), size=8)
+            if op[3] and op[2] == (op[2] & 0x3FFFF00):
+                aid = cm.ArbitrationId.from_pgn(op[2] >> 8)       # priority 0, source 0: as the J1939 helpers build it
+            else:
+                aid = cm.ArbitrationId(op[2], op[3])
+            fr = cm.Frame(op[1], arbitration_id=aid, size=8)
             fr.add_signal(cm.Signal("s", start_bit=0, size=8))
             return {"h": self.reg(fr)}, None
         if k == "loadMatrix":
